@@ -307,12 +307,18 @@ example (w : σ → σ → σ → R) (T : Nat) (hT : T ≥ 1) :
        (`final_rename_agrees`, `prefix_rename`); `_get_shift`/`_shift_name` on strings are that arithmetic
        (`getShiftS_prevs`, `shiftNameS_up`, `shiftNameS_down`, `shiftNameS_absent`).
 
-  MISSING for the single theorem: a denotation of funsor terms with RELATIVE names (Subs/renaming as
-  alpha-conversion, `Contraction` over the `_drop_i` variables as `sumOver (window b)`), which would turn (3)
-  into the statement "`_shift_funsor(trans, p-t-1)(time=slice_t)` at block time b denotes `F (t + p·b)`" and
-  so identify the code's block chain with `chain`; and the identification of `chain`'s left-to-right
-  contraction with a product in the window-matrix semigroup of (1).  Both are covered by correspondence
-  (funsor vs. Lean `windowMat`/`sarkka`/`fold1`, five semirings).
+  NARROWED since (Props/C10/Terms.lean, Props/C10/Carrier.lean):
+   (4) a relative-name term semantics of exactly the funsors the two functions build (`denote_shift`,
+       `denote_block`, `contract_den`, `termChain_den`) and `sarkka_terms_eq_naive_terms_aligned` /
+       `sarkka_terms_eq_naive_terms_partial`: the two funsors are EQUAL for durations that are a multiple of the
+       period or shorter than one period, every num_periods (the chain contraction `contract` is associative, so
+       `mixed_eq_fold` applies to it directly — no detour through window matrices);
+   (5) `Mat.mul sr` of the driver = Mathlib's `Matrix` product on the NaN-free carrier for add-mul (ℚ) and
+       max-add (tropical `WithTop ℚᵒᵈ`): `mul_addMul_ofRat`, `mul_maxAdd_ofMaxPlus`.
+  STILL MISSING for the single theorem: the term-level treatment of the branch 0 < T % p < T (recursive call on
+  the time-shifted family + prefix loop; absolute-time content proved in (2)); several base variables with
+  different name spaces are modelled as one joint state; `_drop_i` names are eliminated in `contract` rather
+  than modelled as names.
 -/
 theorem sarkka_eq_naive_partial :
     -- (1) structure
